@@ -50,23 +50,36 @@ clampScalar_lt clampScalar_testBit clampScalar_testBit_32 edPrivToX25519_eq edPu
 
 C17_THMS = ["Voi.Props.C17." + n for n in """bits_value bits_value_mod naf_value naf_defined naf_shape r16_value r16_bounds r16_bounds_wide r2w_value r2w_defined r2w_bounds r16_abs_le_8 naf5_digits naf8_digits r2w_bucket_index bits_ok naf_shape_ok r16_ok r2w_ok""".split()]
 
+import json as _json, os as _os
+_REG = _json.load(open(_os.path.join(_os.path.dirname(_os.path.abspath(__file__)), "theorems.json")))
+
+
+def reg(*mods):
+    """obligations registered in lib/theorems.json (committed list of fully qualified theorem names per module)"""
+    return {m: list(_REG[m]) for m in mods}
+
+
+LAT_FOR_C01 = {}
+
 PROPS = {
     "C01": dict(
-        level="translation_validation",
-        streams=[("V1", 3000)], configs_quick=Q4, configs_thorough=T4, theorems={},
+        level="proof",
+        streams=[("V1", 3000), ("V2", 2000)], configs_quick=Q4, configs_thorough=T4,
+        theorems={**reg("Voi.Props.C01"), **LAT_FOR_C01},
         explanation="Go VerifyWithOptions / VerifyExpandedWithOptions / crypto/ed25519.Verify vs the declarative Lean predicate Spec.Ed25519.verify",
     ),
-    "C02": dict(level="translation_validation", streams=[("K1", 1500)], configs_quick=Q4, configs_thorough=T4, theorems={}),
-    "C03": dict(level="translation_validation", streams=[("G1", 1500)], configs_quick=T4, configs_thorough=T4, thorough_mult=4, theorems={}),
+    "C02": dict(level="proof", streams=[("K1", 1500)], configs_quick=Q4, configs_thorough=T4, theorems=reg("Voi.Props.C02")),
+    "C03": dict(level="proof", streams=[("G1", 1500), ("G2", 800)], configs_quick=T4, configs_thorough=T4, thorough_mult=4,
+                theorems=reg("Voi.Props.C03", "Voi.Props.C03.Basic", "Voi.Props.C03.Buckets", "Voi.Proofs.SpecBridge", "Voi.Proofs.EdwardsCurve", "Voi.Proofs.EdwardsExt", "Voi.Proofs.Ed25519Group", "Voi.Proofs.Primes")),
     "C04": dict(level="proof", gens=["go2ir"], streams=[("T0", 6000), ("F2", 5000)], configs_quick=["default", "purego", "force32bit"], configs_thorough=T4,
-                theorems={**IR_CORE, **L0_FIELD}),
+                theorems={**IR_CORE, **L0_FIELD, **reg("Voi.Proofs.SqrtRatio")}),
     "C05": dict(level="proof", gens=["go2ir"], streams=[("S1", 4000), ("T0", 4000)], configs_quick=["default", "force32bit"], configs_thorough=T4,
                 theorems={**IR_CORE, **L0_SCALAR}),
     "C07": dict(level="proof", streams=[("X1", 2500)], configs_quick=Q4, configs_thorough=T4, theorems={"Voi.Props.C07": C07_THMS}),
     "C09": dict(level="proof", streams=[("B1", 1500), ("C1", 1500)], configs_quick=Q4, configs_thorough=T4, thorough_mult=4,
                 theorems={"Voi.Props.BatchInv": BATCH_THMS, "Voi.Props.CacheInv": CACHE_THMS}),
-    "C10": dict(level="translation_validation", streams=[("D1", 3000)], configs_quick=Q4, configs_thorough=T4, theorems={}),
-    "C11": dict(level="translation_validation", streams=[("T1", 3000)], configs_quick=Q4, configs_thorough=T4, theorems={}),
+    "C10": dict(level="proof", streams=[("D1", 3000)], configs_quick=Q4, configs_thorough=T4, theorems=reg("Voi.Props.C10", "Voi.Proofs.SqrtRatio")),
+    "C11": dict(level="proof", streams=[("T1", 3000)], configs_quick=Q4, configs_thorough=T4, theorems=reg("Voi.Props.C11")),
     "C12": dict(level="translation_validation", streams=[("Q1", 2500)], configs_quick=Q4, configs_thorough=T4, theorems={}),
     "C13": dict(level="proof", streams=[("M1", 4000), ("S0", 2000)], configs_quick=Q4, configs_thorough=T4,
                 theorems={"Voi.Props.StrobeInv": STROBE_THMS}),
